@@ -185,6 +185,8 @@ class ThreadProgram:
         self.name = name
         self.stmts = []
         self.unw = False      # guard under which the unwinding bound is exceeded
+        self.unw_list = []    # (guard, statement position at which the bound would be exceeded)
+        self.panic_list = []
         self.ops = []         # (label, kind, arg, first_idx, last_idx, result)
         self.obs = {}
 
@@ -202,6 +204,7 @@ class Conc:
         self.stats = {"stmts": 0, "funcs": set()}
         self.intrinsics = {}
         self.thread_tag = ""
+        self.private = {}
 
     # ------------------------------------------------------------------ static helpers
     def fresh(self, base, w):
@@ -280,6 +283,7 @@ class Conc:
         tp = ThreadProgram(tname)
         self.cur = tp
         self.thread_tag = tname
+        self.private = {}
         self.call(fname, [], (), True, depth=0)
         for i, s in enumerate(tp.stmts):
             s.thread = tname
@@ -288,6 +292,9 @@ class Conc:
         return tp
 
     def emit(self, kind, guard, addr, args, w, pos, note=""):
+        if kind in ("store", "cas", "swap") and w == PW and note != "const-index":
+            for a in (args[-1:] if kind == "cas" else args):
+                self.publish_term(a, pos)
         res = None
         if kind in ("load", "cas", "add", "swap"):
             res = self.fresh("L" + kind, 1 if kind == "cas" else w)
@@ -297,6 +304,42 @@ class Conc:
         return res
 
     cur_op = None
+
+    # ---- atomic summary of the lock-free queue (linearizability established by C13 on the real code): the link step and
+    # the length update stay two separate steps, because that gap is what C03 is about
+    def queue_len_ptr(self, q):
+        tid = self.w.objs[q.oid]["tid"]
+        fields = self.p.U(tid)["fields"]
+        idx = [i for i, f in enumerate(fields) if f["n"] == "length"][0]
+        return CPtr(q.oid, (idx,))
+
+    def abs_enqueue(self, args, g, ins):
+        q, task = args
+        if is_sym(q.oid):
+            raise Unsupported("queue summary on a symbolic queue pointer")
+        pos = "@queue.Enqueue[summary:link] " + (ins.get("pos", "") if ins else "")
+        self.publish_value(task, pos)
+        s = Stmt("absenq", g, CPtr(q.oid, ()), (task.oid,), None, pos, PW, "")
+        s.op = self.cur_op
+        self.cur.stmts.append(s)
+        self.emit("add", g, self.queue_len_ptr(q), (1,), 32, "@queue.Enqueue[summary:length++]")
+        return None
+
+    def abs_dequeue(self, args, g, ins):
+        q = args[0]
+        pos = "@queue.Dequeue[summary:unlink] " + (ins.get("pos", "") if ins else "")
+        res = self.fresh("Ldeq", PW)
+        s = Stmt("absdeq", g, CPtr(q.oid, ()), (), res, pos, PW, "")
+        s.op = self.cur_op
+        self.cur.stmts.append(s)
+        self.emit("add", band(g, res != 0), self.queue_len_ptr(q), ((1 << 32) - 1,), 32, "@queue.Dequeue[summary:length--]")
+        return CPtr(res, ())
+
+    def emit_await(self, ptr, g, ins):
+        s = Stmt("await", g, ptr, (), None, "vAwait " + (ins.get("pos", "") if ins else ""), 32, "")
+        s.op = self.cur_op
+        self.cur.stmts.append(s)
+        return None
 
     def val(self, env, o):
         if o is None:
@@ -325,8 +368,8 @@ class Conc:
         if k == "global":
             oid = self.w.amap.get("g:" + o["n"])
             if oid is None:
-                raise Unsupported("global %s not in the initial heap" % o["n"])
-            return CPtr(oid, ())
+                oid = self.w.lazy_global(o["n"])
+            return CPtr(oid, (), o.get("t"))
         if k == "func":
             return CClosure(o["n"])
         if k == "builtin":
@@ -350,7 +393,7 @@ class Conc:
             if a.path != b.path:
                 raise Unsupported("merge of pointers with different field paths")
             return CPtr(ite(g, a.oid, b.oid, PW), a.path, a.tid or b.tid)
-        if isinstance(a, tuple) and isinstance(b, tuple) and len(a) == len(b) and not (a and a[0] in ("str", "builtin")):
+        if isinstance(a, tuple) and isinstance(b, tuple) and len(a) == len(b) and not (a and isinstance(a[0], str) and a[0] in ("str", "builtin", "constref", "constchoice", "slice")):
             return tuple(self.merge2(g, x, y) for x, y in zip(a, b))
         if (isinstance(a, (int, bool)) or is_sym(a)) and (isinstance(b, (int, bool)) or is_sym(b)):
             w = a.size() if (is_sym(a) and z3.is_bv(a)) else (b.size() if (is_sym(b) and z3.is_bv(b)) else 64)
@@ -361,6 +404,12 @@ class Conc:
             return CIface(a.tid, self.merge2(g, a.val, b.val))
         if isinstance(a, CClosure) and isinstance(b, CClosure) and a.fn == b.fn and not a.binds and not b.binds:
             return a
+        if isinstance(a, tuple) and isinstance(b, tuple) and a and b and a[0] == "constref" and b[0] == "constref":
+            return ("constref", ite(g, a[1], b[1], PW), a[2])
+        if isinstance(a, tuple) and a and a[0] == "constref" and b is None:
+            return ("constref", ite(g, a[1], 0, PW), a[2])
+        if isinstance(b, tuple) and b and b[0] == "constref" and a is None:
+            return ("constref", ite(g, 0, b[1], PW), b[2])
         raise Unsupported("cannot merge values %r / %r" % (a, b))
 
     def call(self, fname, args, binds, guard, depth, ins=None):
@@ -435,11 +484,18 @@ class Conc:
                     returns.append((g, rv))
                 elif op == "Panic":
                     self.cur.panics = bor(getattr(self.cur, "panics", False), g)
+                    self.cur.panic_list.append((g, len(self.cur.stmts)))
                 else:
                     self.exec_instr(fn, env, ins2, g, depth)
         if not returns:
             return None
         return self.merge_vals(returns)
+
+    def unwind_for(self, fn):
+        for key, u in self.cfg.get("unwind_fn", {}).items():
+            if fn["name"].endswith(key):
+                return u
+        return self.U
 
     def edge(self, pending, fn, rpo, b, k, succ, g, env):
         g = simp(g)
@@ -448,8 +504,9 @@ class Conc:
         k2 = k
         if rpo[succ] <= rpo[b]:      # back edge: next unrolled copy
             k2 = k + 1
-            if k2 > self.U:
+            if k2 > self.unwind_for(fn):
                 self.cur.unw = bor(self.cur.unw, g)
+                self.cur.unw_list.append((g, len(self.cur.stmts)))
                 return
         pending.setdefault((succ, k2), []).append((g, b, env))
 
@@ -471,6 +528,23 @@ class Conc:
                     vals.append(self.do_load(CPtr(ptr.oid, ptr.path + (i,)), t["elem"], g, pos))
             return tuple(vals)
         w = self.w.width_of(elem_tid)
+        if not is_sym(ptr.oid) and ptr.oid in self.private:
+            loc = self.private[ptr.oid]
+            if any(is_sym(e) for e in ptr.path):
+                v, cw, isconst = None, None, False
+                for path2, (v2, cw2, ic2) in loc.items():
+                    cond = self.path_match(ptr.path, path2)
+                    if cond is False:
+                        continue
+                    v = v2 if v is None else ite(cond, v2, v, cw2)
+                    cw, isconst = cw2, ic2
+                if v is None:
+                    raise Unsupported("no cell matches a symbolic path")
+            else:
+                v, cw, isconst = loc[ptr.path]
+            if isconst:
+                return ("constref", v, elem_tid) if (is_sym(v) or v) else None
+            return self.wrap_loaded(v, elem_tid)
         # immutable cell of a statically known object: resolve now
         if not is_sym(ptr.oid) and not self.may_be_written(ptr):
             v = self.w.cells.get((ptr.oid, ptr.path))
@@ -481,6 +555,17 @@ class Conc:
             return ("constref", idx, elem_tid)
         r = self.emit("load", g, ptr, (), w, pos)
         return self.wrap_loaded(r, elem_tid)
+
+    def path_match(self, sympath, path):
+        if len(sympath) != len(path):
+            return False
+        conds = []
+        for a, b in zip(sympath, path):
+            if is_sym(a):
+                conds.append(a == z3.BitVecVal(b, a.size()))
+            elif a != b:
+                return False
+        return band(*conds)
 
     def wrap_loaded(self, v, elem_tid):
         t = self.p.U(elem_tid)
@@ -507,8 +592,32 @@ class Conc:
                 self.do_store(CPtr(ptr.oid, ptr.path + (i,)), val[i] if val is not None else None, et, g, pos)
             return
         w = self.w.width_of(elem_tid)
+        if not is_sym(ptr.oid) and ptr.oid in self.private and any(is_sym(e) for e in ptr.path):
+            loc = self.private[ptr.oid]
+            for path2 in list(loc):
+                cond = self.path_match(ptr.path, path2)
+                if cond is False:
+                    continue
+                self.do_store(CPtr(ptr.oid, path2, ptr.tid), val, elem_tid, band(g, cond), pos)
+            return
+        if not is_sym(ptr.oid) and ptr.oid in self.private:
+            loc = self.private[ptr.oid]
+            old, cw, isconst = loc[ptr.path]
+            if isconst:
+                if isinstance(val, tuple) and val and val[0] == "constref":
+                    nv = val[1]
+                else:
+                    nv = 0 if val is None else self.w.const_index(val)
+            else:
+                nv = val.oid if isinstance(val, CPtr) else (0 if val is None else ((1 if val else 0) if isinstance(val, bool) else val))
+            loc[ptr.path] = (ite(g, nv, old, cw), cw, isconst)
+            return
         if w is None:
-            idx = 0 if val is None else self.w.const_index(val)
+            if isinstance(val, tuple) and val and val[0] == "constref":
+                idx = val[1]
+            else:
+                idx = 0 if val is None else self.w.const_index(val)
+                self.publish_value(val, pos)
             self.emit("store", g, ptr, (idx,), PW, pos, note="const-index")
             return
         if isinstance(val, CPtr):
@@ -537,7 +646,15 @@ class Conc:
             x = env_val(self, env, ins["x"])
             i = env_val(self, env, ins["index"])
             if is_sym(i):
-                raise Unsupported("symbolic index in concurrent code")
+                # allowed only into thread-private memory (resolved by case split in do_load/do_store)
+                xs = self.resolve_const(x, g) if not isinstance(x, CPtr) else x
+                base = xs[1] if (isinstance(xs, tuple) and xs and xs[0] == "slice") else xs
+                if not (isinstance(base, CPtr) and not is_sym(base.oid) and base.oid in self.private):
+                    raise Unsupported("symbolic index into shared memory in concurrent code")
+                off = xs[2] if (isinstance(xs, tuple) and xs and xs[0] == "slice") else 0
+                env[ins["name"]] = CPtr(base.oid, base.path + (simp(bv(i, 64) + off),), ins["t"])
+                return
+            x = self.resolve_const(x, g)
             if isinstance(x, tuple) and x and x[0] == "slice":
                 base = x[1]
                 env[ins["name"]] = CPtr(base.oid, base.path + (x[2] + i,), ins["t"])
@@ -604,6 +721,24 @@ class Conc:
         if op == "Call":
             env[ins["name"]] = self.do_call(env, ins, g, depth)
             return
+        if op == "MakeSlice":
+            n = env_val(self, env, ins["len"])
+            cp = env_val(self, env, ins["cap"])
+            if is_sym(n) or is_sym(cp):
+                raise Unsupported("make with symbolic length in concurrent code")
+            et = p.U(ins["t"])["elem"]
+            arr_t = self.array_type(et, cp)
+            oid = self.new_thread_obj_paths(et, cp, pos)
+            env[ins["name"]] = ("slice", CPtr(oid, ()), 0, n, cp, et)
+            return
+        if op == "Slice":
+            x = env_val(self, env, ins["x"])
+            if isinstance(x, tuple) and x and x[0] == "slice":
+                lo = env_val(self, env, ins["low"]) if ins["low"] else 0
+                hi = env_val(self, env, ins["high"]) if ins["high"] else x[3]
+                env[ins["name"]] = ("slice", x[1], x[2] + lo, hi - lo, x[4] - lo, x[5])
+                return
+            raise Unsupported("slice of non-slice in concurrent code")
         if op in ("Defer", "RunDefers", "Go"):
             raise Unsupported(op + " in concurrent code")
         raise Unsupported("instruction " + op)
@@ -692,14 +827,88 @@ class Conc:
                 return simp(X | Y)
         raise Unsupported("binop %s on %s" % (op, ut.get("s")))
 
+    def array_type(self, et, n):
+        return None
+
+    def new_thread_obj_paths(self, et, n, pos):
+        """backing array of n elements of type et"""
+        oid = self.w.new_obj(("array", et, n), "%s@%s[]" % (self.thread_tag, pos))
+        loc = {}
+        for i in range(n):
+            for path, lt in self.w.leaf_paths(et):
+                w = self.w.width_of(lt)
+                full = (i,) + path
+                self.w.cells[(oid, full)] = 0
+                self.w.cellw[(oid, full)] = w if w is not None else PW
+                self.w_written_cells.add((oid, full))
+                loc[full] = (0, w if w is not None else PW, w is None)
+        self.private[oid] = loc
+        return oid
+
     def new_thread_obj(self, et, pos):
         oid = self.w.new_obj(et, "%s@%s" % (self.thread_tag, pos))
+        loc = {}
         for path, lt in self.w.leaf_paths(et):
             w = self.w.width_of(lt)
             self.w.cells[(oid, path)] = 0
             self.w.cellw[(oid, path)] = w if w is not None else PW
             self.w_written_cells.add((oid, path))
+            loc[path] = (0, w if w is not None else PW, w is None)
+        # thread-private until its pointer is written to shared memory: accesses are local, no schedule points
+        self.private[oid] = loc
         return oid
+
+    def publish(self, oid, pos):
+        """the pointer to a private object is about to become visible to other threads: flush its contents"""
+        loc = self.private.pop(oid, None)
+        if loc is None:
+            return
+        for path, (v, w, isconst) in loc.items():
+            self.publish_value(v if not isconst else (self.w.consts[v - 1] if isinstance(v, int) and v > 0 else None), pos)
+            s = Stmt("store", True, CPtr(oid, path), (v,), None, pos + " [init flush]", w, "const-index" if isconst else "")
+            s.op = self.cur_op
+            self.cur.stmts.append(s)
+
+    def publish_value(self, v, pos):
+        """publish every private object reachable from value v"""
+        if isinstance(v, CPtr):
+            self.publish_term(v.oid, pos)
+        elif isinstance(v, CClosure):
+            for b in v.binds:
+                self.publish_value(b, pos)
+        elif isinstance(v, CIface):
+            self.publish_value(v.val, pos)
+        elif isinstance(v, tuple):
+            for x in v:
+                self.publish_value(x, pos)
+        elif is_sym(v) or isinstance(v, int):
+            self.publish_term(v, pos)
+
+    def publish_term(self, t, pos):
+        if isinstance(t, bool):
+            return
+        if isinstance(t, int):
+            if t in self.private:
+                self.publish(t, pos)
+            return
+        if is_sym(t) and z3.is_bv(t) and t.size() == PW and self.private:
+            # a merged pointer: any private object it may denote becomes shared
+            for oid in list(self.private):
+                if self.mentions(t, oid):
+                    self.publish(oid, pos)
+
+    def mentions(self, t, oid):
+        seen = set()
+        stack = [t]
+        while stack:
+            e = stack.pop()
+            if e.get_id() in seen:
+                continue
+            seen.add(e.get_id())
+            if z3.is_bv_value(e) and e.size() == PW and e.as_long() == oid:
+                return True
+            stack.extend(e.children())
+        return False
 
     # ------------------------------------------------------------------ calls
     def do_call(self, env, ins, g, depth):
@@ -711,6 +920,8 @@ class Conc:
             if isinstance(recv, tuple) and recv and recv[0] == "constchoice":
                 outs = []
                 for cond, v in recv[1]:
+                    if not isinstance(v, CIface):
+                        continue
                     fname = self.p.methods.get(str(v.tid), {}).get(c["method"])
                     outs.append((cond, self.call(fname, [v.val] + args, (), band(g, cond), depth + 1, ins)))
                 return self.merge_vals(outs)
@@ -723,14 +934,18 @@ class Conc:
         f = self.val(env, c["fn"])
         args = [env_val(self, env, a) for a in c["args"]]
         if isinstance(f, tuple) and f[0] == "builtin":
+            if f[1] in ("len", "cap") and isinstance(args[0], tuple) and args[0] and args[0][0] == "slice":
+                return args[0][3] if f[1] == "len" else args[0][4]
             raise Unsupported("builtin %s in concurrent code" % f[1])
         f = self.resolve_const(f, g)
         if isinstance(f, tuple) and f and f[0] == "constchoice":
             outs = []
             for cond, v in f[1]:
-                if v is None:
-                    continue
+                if not isinstance(v, CClosure):
+                    continue   # the cell holds a function value: other table entries cannot be stored there (typed memory)
                 outs.append((cond, self.call(v.fn, args, v.binds, band(g, cond), depth + 1, ins)))
+            if not outs:
+                return None
             return self.merge_vals(outs)
         if isinstance(f, CClosure):
             return self.call(f.fn, args, f.binds, g, depth + 1, ins)
@@ -739,6 +954,14 @@ class Conc:
     # ------------------------------------------------------------------ stubs
     def stub(self, fname):
         short = fname.rsplit(".", 1)[-1]
+        if self.cfg.get("queue_summary") and fname.startswith("(*github.com/panjf2000/gnet/v2/pkg/queue.lockFreeQueue)."):
+            m = fname.rsplit(".", 1)[-1]
+            if m == "Enqueue":
+                return lambda s, args, g, ins: s.abs_enqueue(args, g, ins)
+            if m == "Dequeue":
+                return lambda s, args, g, ins: s.abs_dequeue(args, g, ins)
+        if short == "vAwait":
+            return lambda s, args, g, ins: s.emit_await(args[0], g, ins)
         if fname in self.intrinsics:
             return self.intrinsics[fname]
         if short in self.intrinsics and short.startswith("v"):
@@ -750,7 +973,45 @@ class Conc:
             raise Unsupported("typed atomics in concurrent code: " + fname)
         if fname in ("runtime.Gosched",):
             return lambda s, args, g, ins: None
+        if fname.startswith("github.com/panjf2000/gnet/v2/pkg/logging."):
+            return lambda s, args, g, ins: None
+        if fname == "os.NewSyscallError":
+            return lambda s, args, g, ins: args[1]
+        if fname == "errors.Is":
+            return lambda s, args, g, ins: s.errors_is(args[0], args[1], g)
+        if fname.endswith("/pkg/queue.GetTask"):
+            return lambda s, args, g, ins: s.get_task(ins)
+        if fname in ("(*sync.Pool).Put",):
+            return lambda s, args, g, ins: None
         return None
+
+    def errors_is(self, err, target, g):
+        err = self.resolve_const(err, g)
+        target = self.resolve_const(target, g)
+        if err is None:
+            return False
+        if isinstance(err, tuple) and err and err[0] == "constchoice":
+            return bor(*[band(cnd, self.same_const(v, target)) for cnd, v in err[1] if v is not None])
+        return self.same_const(err, target)
+
+    def same_const(self, a, b):
+        if a is b:
+            return True
+        if isinstance(a, CIface) and isinstance(b, CIface) and a.tid == b.tid and isinstance(a.val, CPtr) and isinstance(b.val, CPtr):
+            return eqv(a.val.oid, b.val.oid, PW) if a.val.path == b.val.path else False
+        return False
+
+    def get_task(self, ins):
+        # queue.GetTask(): sync.Pool with New -> modelled as a fresh Task object per call (exclusive hand-out; a task that
+        # went back to the pool is not referenced by anybody else)
+        for tid, t in enumerate(self.p.types):
+            if t["k"] == "named" and t["name"].endswith("/pkg/queue.Task"):
+                oid = self.new_thread_obj(tid, "GetTask")
+                for t2id, t2 in enumerate(self.p.types):
+                    if t2["k"] == "ptr" and t2["elem"] == tid:
+                        return CPtr(oid, (), t2id)
+                return CPtr(oid, ())
+        raise Unsupported("queue.Task type not in dump")
 
     def atomic(self, op, args, g, ins):
         ptr = args[0]
@@ -870,14 +1131,43 @@ class Schedule:
                         cur = self.read(mem, s.addr, w)
                         self.cons.append(z3.Implies(eff, s.res == bv(cur, w)))
                         self.write(mem, s.addr, eff, s.args[0], w)
+                    elif s.kind == "absenq":
+                        q = s.addr.oid
+                        N = 6
+                        tkey = (q, ("abs", "tail"))
+                        t = mem.get(tkey, 0)
+                        for i in range(N):
+                            k = (q, ("abs", "slot", i))
+                            mem[k] = ite(band(eff, eqv(t, i, PW)), s.args[0], mem.get(k, 0), PW)
+                        mem[tkey] = ite(eff, simp(bv(t, PW) + 1), t, PW)
+                        self.absq_over = bor(getattr(self, "absq_over", False), band(eff, z3.UGE(bv(t, PW), N)))
+                    elif s.kind == "absdeq":
+                        q = s.addr.oid
+                        N = 6
+                        hkey, tkey = (q, ("abs", "head")), (q, ("abs", "tail"))
+                        h, t = mem.get(hkey, 0), mem.get(tkey, 0)
+                        empty = eqv(h, t, PW)
+                        val = bv(0, PW)
+                        for i in range(N):
+                            val = z3.If(bv(h, PW) == i, bv(mem.get((q, ("abs", "slot", i)), 0), PW), val)
+                        resv = ite(empty, 0, val, PW)
+                        self.cons.append(z3.Implies(eff, s.res == bv(resv, PW)))
+                        mem[hkey] = ite(band(eff, bnot(empty)), simp(bv(h, PW) + 1), h, PW)
+                    elif s.kind == "await":
+                        cur = self.read(mem, s.addr, w)
+                        self.cons.append(z3.Implies(eff, bv(cur, w) != 0))   # blocked statement cannot be passed
                     else:
                         raise Unsupported("statement kind " + s.kind)
         self.round_of = rounds
         self.final_mem = mem
         # complete executions: every thread runs to its end within R rounds; no unwinding overflow
         self.finished = z3.And(*[self.cs[(self.R, t)] == z3.BitVecVal(len(tp.stmts), W) for t, tp in enumerate(self.threads)])
-        self.unw = bor(*[tp.unw for tp in self.threads])
-        self.panics = bor(*[getattr(tp, "panics", False) for tp in self.threads])
+        # a guard is meaningful only once the thread has actually got there (all earlier loads executed)
+        def reached(t, lst):
+            return bor(*[band(g, z3.UGE(self.cs[(self.R, t)], z3.BitVecVal(pos, W))) for g, pos in lst])
+        self.unw_of = [reached(t, tp.unw_list) for t, tp in enumerate(self.threads)]
+        self.unw = bor(*self.unw_of)
+        self.panics = bor(*[reached(t, tp.panic_list) for t, tp in enumerate(self.threads)])
 
     def time_lt(self, ta, ra, tb, rb):
         """(ra, ta) < (rb, tb) lexicographically; ta, tb are thread indices (python ints)"""
